@@ -65,6 +65,16 @@ pub fn interleavings(lens: &[usize]) -> Vec<Vec<(usize, usize)>> {
 
 macro_rules! conc_kind {
     (di) => {
+        fn more_readers(n: &N, c: &Call) -> Option<String> {
+            Some(match c.kind {
+                'n' => format!("{}", n.in_degree()),
+                'r' => format!("{}", n.is_root() as u8),
+                'l' => format!("{}", n.is_leaf() as u8),
+                'f' => format!("{}", n.find_inbound(&c.b).is_some() as u8),
+                'F' => format!("{}", n.find_outbound(&c.b).is_some() as u8),
+                _ => return None,
+            })
+        }
         fn degree_of(n: &N) -> usize {
             n.out_degree()
         }
@@ -73,6 +83,12 @@ macro_rules! conc_kind {
         }
     };
     (un) => {
+        fn more_readers(n: &N, c: &Call) -> Option<String> {
+            Some(match c.kind {
+                'F' => format!("{}", n.find_adjacent(&c.b).is_some() as u8),
+                _ => return None,
+            })
+        }
         fn degree_of(n: &N) -> usize {
             n.degree()
         }
@@ -115,7 +131,7 @@ macro_rules! conc_mod {
                     'g' => format!("{}", degree_of(&find(c.a))),
                     'o' => format!("{}", find(c.a).is_orphan() as u8),
                     'i' => fmt_list(&iter_of(&find(c.a))),
-                    _ => "bad".into(),
+                    _ => more_readers(&find(c.a), c).unwrap_or_else(|| "bad".into()),
                 }
             }
 
